@@ -61,6 +61,8 @@ def generate(tier, seed, shard, nshards):
                 c['args']['w'] = w0
         n_h = rng.choice([3, 4, 6])
         w_max = rng.choice([n_h * w0, (n_h + 0.5) * w0, n_h * w0 * (1 + 1e-12)])
+        if k % 10 == 9:
+            w_max = [0.0, 0.4 * w0, w0][(k // 10) % 3]      # limit at or below the fundamental: only the DC term (and w0 itself) of a periodic source
         yield {'circuit': cd, 'w_max': w_max, 'stratum': stratum, 'w0': w0}
 
 
@@ -151,6 +153,16 @@ def custom_resolution_clause(ctx, prefix, cd, circ, w_max):
         # natural scale of the whole analysis (a line on which a waveform has no harmonic is not judged relative to itself)
         S_phi = max([rd['s_phi'] for rd in rds if rd is not None] + [0.0])
         S_i = max([rd['s_i'] for rd in rds if rd is not None] + [0.0])
+        # ... and never below what the source amplitudes themselves imply (w_max below the fundamental leaves only the DC line,
+        # on which a zero-mean waveform contributes nothing but 1e-16)
+        from ..ref import floatmna
+        a_v = max([abs(c['args'].get('V', 0)) for c in cd['components'] if 'voltage_source' in c['ctor']] + [0.0])
+        a_i = max([abs(c['args'].get('I', 0)) for c in cd['components'] if 'current_source' in c['ctor']] + [0.0])
+        for rd in rds:
+            if rd is not None:
+                sc = floatmna.kappa_and_scales(rd['ref_net'])[1]
+                S_phi = max(S_phi, a_v, a_i * sc['zmax'])
+                S_i = max(S_i, a_i, a_v * sc['ymax'])
         for w, net, rd in zip(ws, nets, rds):
             if rd is None or rd['kappa'] > 1e7:
                 ctx.count('custom_resolution_set_aside_ill_posed_or_conditioned')
@@ -190,6 +202,15 @@ def judge(case, ctx, prefix='C09'):
     st = case['stratum']
     s_phi = sum(r['s_phi'] for r in refs.values())
     s_i = sum(r['s_i'] for r in refs.values())
+    # never below what the source amplitudes themselves imply: with w_max below the fundamental only the DC line is left, on which
+    # a zero-mean waveform contributes 1e-16 - a class that must not be judged relative to itself
+    from ..ref import floatmna
+    a_v = max([abs(c['args'].get('V', 0)) for c in cd['components'] if 'voltage_source' in c['ctor']] + [0.0])
+    a_i = max([abs(c['args'].get('I', 0)) for c in cd['components'] if 'current_source' in c['ctor']] + [0.0])
+    for r in refs.values():
+        sc = floatmna.kappa_and_scales(r['ref_net'])[1]
+        s_phi = max(s_phi, a_v, a_i * sc['zmax'])
+        s_i = max(s_i, a_i, a_v * sc['ymax'])
     nontrivial = len(exp) >= 2 and any(not r['trivial'] for r in refs.values())
     ctx.evaluated(circdesc.signature(cd, (st, len(exp))), nontrivial)
     ctx.count('circuits_judged'); ctx.count('stratum_' + st)
